@@ -31,8 +31,10 @@
 (* A message is abstracted to                                              *)
 (*   sender  claimed member index (may be the receiver itself)             *)
 (*   hash    "mine" | "other"    the signed hash equals the receiver's     *)
-(*   sig     "valid" | "invalid" the signature verifies for (hash, key in  *)
-(*                               the message)                              *)
+(*   sig     "valid" | "invalid" | "copy"  the signature verifies for      *)
+(*                               (hash, key in the message) / for nobody / *)
+(*                               it is the exact byte string of ANOTHER    *)
+(*                               member's (src) genuine signature          *)
 (*   key     "network" | "other" the key in the message is the key the     *)
 (*                               network layer pinned for the sender       *)
 (*   origin  "member" | "foreign" the pinned network key belongs to the    *)
@@ -49,20 +51,21 @@ CONSTANTS N,            \* group size
           NonOps,       \* set of sets: members marked inactive or disqualified in the group
           Hs,           \* honest thresholds to explore
           Qs,           \* group quorums to explore (tecdsa)
-          MaxLen        \* bound on the number of messages
+          MaxLen,       \* bound on the number of messages
+          SrcMode       \* "abstract" | "concrete" (see Msgs)
 
-VARIABLE par          \* [proto, h, q, nonop]: the configuration, fixed in Init
+VARIABLE par          \* [proto, nonop]: the configuration, fixed in Init
 
 Proto        == par.proto
-H            == par.h
-Q            == par.q
 NonOperating == par.nonop
 
 \* value for NonOps (cfg files cannot write sets of sets)
 NonOpsDef == { {}, {N} }
 
-Pars == { [proto |-> p, h |-> h, q |-> q, nonop |-> no] :
-            p \in Protos, h \in Hs, q \in Qs, no \in NonOps }
+Pars == { [proto |-> p, nonop |-> no] : p \in Protos, no \in NonOps }
+
+\* the (honest threshold, quorum) pairs the submission gate is explored for
+HQ == { hq \in Hs \X Qs : hq[1] <= hq[2] }
 
 Rule == IF Proto = "beacon" THEN "dropAll" ELSE "firstWins"
 
@@ -71,23 +74,40 @@ ThresholdP(proto, h, q) ==
       [] proto = "tecdsa"     -> q
       [] proto = "inactivity" -> h
 
-Threshold == ThresholdP(Proto, H, Q)
 
 Senders == 1..N
-Msgs == [sender : Senders, hash : {"mine", "other"}, sig : {"valid", "invalid"},
-         key : {"network", "other"}, origin : {"member", "foreign"}]
+
+\* sig = "valid"   : the signature verifies for (hash, key carried in the message)
+\* sig = "invalid" : it verifies for nobody (garbage / other hash / malformed)
+\* sig = "copy"    : the EXACT signature bytes of member src's genuine signature
+\*                   over the same hash (re-broadcast under the sender's own
+\*                   index and key): valid for src's key, not for the sender's.
+\*                   src = 0 in the abstract mode (the process model does not
+\*                   care whose bytes were copied), a member other than the
+\*                   sender in the concrete mode (case generation).
+BaseMsgs == [sender : Senders, hash : {"mine", "other"}, sig : {"valid", "invalid"},
+             key : {"network", "other"}, origin : {"member", "foreign"}, src : {0}]
+CopyMsgs == { [sender |-> s, hash |-> h, sig |-> "copy", key |-> "network", origin |-> "member", src |-> a] :
+                s \in Senders, h \in {"mine", "other"},
+                a \in (IF SrcMode = "abstract" THEN {0} ELSE Senders) }
+Msgs == BaseMsgs \cup { m \in CopyMsgs : m.src # m.sender }
+
+\* whose key the signature verifies for (0: nobody's / not the sender's)
+ValidFor(m) == CASE m.sig = "valid" -> m.sender
+                 [] m.sig = "copy"  -> m.src
+                 [] OTHER           -> 0
 
 VARIABLES phase,      \* "signing" | "verified" | "done"
           nrecv,      \* messages received so far
           accepted,   \* sequence of messages that passed the Receive filter
           supporters, \* the signature map's key set after verification
-          outcome     \* "none" | "submitted" | "refused"
+          outcome     \* for every (h, q) of HQ: "none" | "submitted" | "refused"
 
 vars == <<par, phase, nrecv, accepted, supporters, outcome>>
 
-Init == /\ par \in { p \in Pars : p.h <= p.q }
+Init == /\ par \in Pars
         /\ phase = "signing" /\ nrecv = 0 /\ accepted = <<>>
-        /\ supporters = {} /\ outcome = "none"
+        /\ supporters = {} /\ outcome = [hq \in HQ |-> "none"]
 
 \* Receive filter: shouldAcceptMessage (not from self, valid membership of
 \* the pinned key at the claimed index, sender operating), isValidKeyUsed.
@@ -106,7 +126,8 @@ Receive(m) ==
     /\ UNCHANGED <<par, phase, supporters, outcome>>
 
 From(acc, s) == { k \in 1..Len(acc) : acc[k].sender = s }
-Good(m) == m.hash = "mine" /\ m.sig = "valid"
+\* the signature must verify for the SENDER's own key, not for somebody else's
+Good(m) == m.hash = "mine" /\ m.sig = "valid" /\ ValidFor(m) = m.sender
 Min(S) == CHOOSE x \in S : \A y \in S : x <= y
 
 SupportersP(acc, rule) ==
@@ -131,7 +152,8 @@ Verify ==
 Submit ==
     /\ phase = "verified"
     /\ phase' = "done"
-    /\ outcome' = IF Cardinality(supporters) >= Threshold THEN "submitted" ELSE "refused"
+    /\ outcome' = [hq \in HQ |-> IF Cardinality(supporters) >= ThresholdP(Proto, hq[1], hq[2])
+                                     THEN "submitted" ELSE "refused"]
     /\ UNCHANGED <<par, nrecv, accepted, supporters>>
 
 DoReceive == \E m \in Msgs : Receive(m)
@@ -143,7 +165,7 @@ Spec == Init /\ [][Next]_vars
 TypeOK == /\ phase \in {"signing", "verified", "done"}
           /\ nrecv \in 0..MaxLen /\ Len(accepted) <= nrecv
           /\ supporters \subseteq Senders
-          /\ outcome \in {"none", "submitted", "refused"}
+          /\ outcome \in [HQ -> {"none", "submitted", "refused"}]
 
 \* C13: the own signature is always part of the set.
 SelfSupports == phase # "signing" => Self \in supporters
@@ -157,7 +179,7 @@ SupportersSound ==
             /\ \E k \in 1..Len(accepted) :
                   /\ accepted[k].sender = s /\ accepted[k].origin = "member"
                   /\ accepted[k].key = "network" /\ accepted[k].hash = "mine"
-                  /\ accepted[k].sig = "valid"
+                  /\ accepted[k].sig = "valid" /\ ValidFor(accepted[k]) = s
 
 \* C13: at most one signature per member: the map has one entry per
 \* supporter, taken from a single accepted message (the witness).
@@ -171,8 +193,12 @@ DuplicatesDropped ==
         \A s \in Senders : Cardinality(From(accepted, s)) > 1 => s \notin supporters
 
 \* C13: submission only with a set that reaches the threshold.
-SubmitGate == outcome = "submitted" => Cardinality(supporters) >= Threshold
-RefuseOnlyBelow == outcome = "refused" => Cardinality(supporters) < Threshold
+SubmitGate ==
+    phase = "done" => \A hq \in HQ : outcome[hq] = "submitted" =>
+                          Cardinality(supporters) >= ThresholdP(Proto, hq[1], hq[2])
+RefuseOnlyBelow ==
+    phase = "done" => \A hq \in HQ : outcome[hq] = "refused" =>
+                          Cardinality(supporters) < ThresholdP(Proto, hq[1], hq[2])
 
 \* nothing that failed the Receive filter is ever stored
 AcceptedOnlyFiltered == \A k \in 1..Len(accepted) : Accept(accepted[k])
